@@ -70,6 +70,17 @@ MUTANTS = {
         ("                data = pd.DataFrame(data).astype(np.float64)\n",
          "                data = pd.DataFrame(data, copy=False)\n"
          "                data.iloc[:, :] = np.sort(data.values.astype(np.float64), axis=0)\n")]),
+    # a work buffer allocated once and handed out by every call: two consecutive calls with the same argument agree,
+    # but a later call with another cell rewrites the first result
+    "M13_neighbours_shared_result_buffer": ("FAILING_INPUT", GRD, [
+        ("        neighbours = np.zeros(9).astype(np.int64)\n\n        ierr = c_hydrodiy_gis.neighbours(",
+         "        if not hasattr(self, \"_nbuf\"):\n            self._nbuf = np.zeros(9).astype(np.int64)\n"
+         "        neighbours = self._nbuf\n        ierr = c_hydrodiy_gis.neighbours(")]),
+    "M14_ppos_module_level_buffer": ("FAILING_INPUT", SUT, [
+        ("def ppos(nval, cst=0.3):\n",
+         "_PPOS_BUF = np.zeros(10000)\n\n\ndef _ppos_shared(nval, cst=0.3):\n    out = _PPOS_BUF[:nval]\n"
+         "    out[:] = _ppos_orig(nval, cst)\n    return out\n\n\ndef _ppos_orig(nval, cst=0.3):\n"),
+        ("def acf(data, maxlag=1, idx=None):\n", "ppos = _ppos_shared\n\n\ndef acf(data, maxlag=1, idx=None):\n")]),
 }
 
 
